@@ -1284,8 +1284,10 @@ def searchLoop (mark : Nat) (backup : Text) (backupPos : Nat) :
       ((if success then "(reverse-i-search)`" else "(failed reverse-i-search)`").toList ++ searchBuf ++ "': ".toList)
     let cmd ← nextCmd S U cfg fuel true true
     let mark ← lowerMark mark
-    let doSearch (searchBuf : Text) (histIdx : Nat) (dir : Dir) : EM (Option Cmd) := do
-      match (memHist cfg).search searchBuf histIdx dir with
+    -- `histIdx` (the loop variable at the top of the iteration, `shown_idx` in the Rust) is the entry on
+    -- display: a search that fails goes back to it (repair of D50)
+    let doSearch (searchBuf : Text) (start : Nat) (dir : Dir) : EM (Option Cmd) := do
+      match (memHist cfg).search searchBuf start dir with
       | some (idx, entry, pos) => do
         lb S U (LB.update S U entry pos)
         searchLoop mark backup backupPos fuel searchBuf idx dir true
